@@ -418,6 +418,32 @@ Proof.
   unfold result. do 3 f_equal. apply clause_map_perm; auto.
 Qed.
 
+Lemma forallb_perm_eq : forall (f : clause -> bool) l1 l2, Permutation l1 l2 -> forallb f l1 = forallb f l2.
+Proof.
+  induction 1; simpl; auto.
+  - rewrite IHPermutation. reflexivity.
+  - destruct (f x), (f y); reflexivity.
+  - congruence.
+Qed.
+
+(* with ANY per-clause content check the outcome (same clause map, or ParseError) is the same *)
+Theorem checked_perm_invariant_proof : forall (valid : clause -> bool) V S hd cs1 cs2 rest,
+  wf_sub V S = true -> head_ok (vhead V) hd = true ->
+  forallb (clause_ok V S) cs1 = true -> NoDup (map fst cs1) ->
+  Permutation cs1 cs2 -> tail_ok V S rest = true ->
+  result V (checked valid (parse_cmd V (hd ++ flatten cs1 ++ rest))) =
+  result V (checked valid (parse_cmd V (hd ++ flatten cs2 ++ rest))).
+Proof.
+  intros valid V S hd cs1 cs2 rest Hwf Hh Hcs Hnd HP Ht.
+  rewrite (no_absorb_proof V S hd cs1 rest) by auto.
+  rewrite (no_absorb_proof V S hd cs2 rest) by (eauto using forallb_perm).
+  rewrite (bodies_len_perm cs1 cs2 HP).
+  destruct (parse_opts V (bodies_len cs2 + length rest) rest) as [[acc r]|]; [|reflexivity].
+  unfold checked. rewrite !forallb_app. rewrite (forallb_perm_eq valid cs1 cs2 HP).
+  destruct (forallb valid cs2 && forallb valid acc); [|reflexivity].
+  unfold result. do 3 f_equal. apply clause_map_perm; auto.
+Qed.
+
 End WithRes.
 
 (* ---------- the generated tables ---------- *)
@@ -441,4 +467,17 @@ Proof.
   intros V S Hin. pose proof tables_wf_proof as H. rewrite forallb_forall in H.
   specialize (H (V, S) Hin). unfold table_ok in H. apply andb_true_iff in H as [Hwf _]. simpl in Hwf.
   intros. apply (clause_perm_invariant_proof gen_reserved V S); auto.
+Qed.
+
+Lemma generated_any_order_checked_proof : forall V S, In (V, S) permutable_tables ->
+  forall (valid : clause -> bool) hd cs1 cs2 rest,
+  head_ok (vhead V) hd = true ->
+  forallb (clause_ok gen_reserved V S) cs1 = true -> NoDup (map fst cs1) ->
+  Permutation cs1 cs2 -> tail_ok gen_reserved V S rest = true ->
+  result V (checked valid (parse_cmd gen_reserved V (hd ++ flatten cs1 ++ rest))) =
+  result V (checked valid (parse_cmd gen_reserved V (hd ++ flatten cs2 ++ rest))).
+Proof.
+  intros V S Hin. pose proof tables_wf_proof as H. rewrite forallb_forall in H.
+  specialize (H (V, S) Hin). unfold table_ok in H. apply andb_true_iff in H as [Hwf _]. simpl in Hwf.
+  intros. apply (checked_perm_invariant_proof gen_reserved valid V S); auto.
 Qed.
